@@ -2,6 +2,7 @@ SPECIFICATION Spec
 CONSTANTS
     Ids <- MCIds
     Modes <- MCModesAll
+    Times = {0}
     MaxPoints = 4
     MaxCrashes = 2
     MaxTaskRestarts = 1
